@@ -79,16 +79,16 @@ pub fn replay(path: &str) -> i32 {
     };
     match (entry.2)(op, &args) {
         Ok(()) => {
-            println!("replay {}: property {} holds for {} {:x?}", path, prop, op, args);
+            crate::outln!("replay {}: property {} holds for {} {:x?}", path, prop, op, args);
             0
         }
         Err(viol) => {
             if let Some(id) = crate::findings::matches(prop, &viol) {
-                println!("KNOWN-FINDING: property={} {} (replayed {} {:x?}: want={} got={})", prop, id, op, args, viol.want, viol.got);
+                crate::outln!("KNOWN-FINDING: property={} {} (replayed {} {:x?}: want={} got={})", prop, id, op, args, viol.want, viol.got);
                 0
             } else {
-                println!("VIOLATION property={} replay={}", prop, path);
-                println!("  # {} args={:x?} want={} got={} ({})", viol.op, viol.args, viol.want, viol.got, viol.kind);
+                crate::outln!("VIOLATION property={} replay={}", prop, path);
+                crate::outln!("  # {} args={:x?} want={} got={} ({})", viol.op, viol.args, viol.want, viol.got, viol.kind);
                 1
             }
         }
